@@ -1,8 +1,167 @@
-/- Driver ops for C13 (none yet). -/
+/-
+Driver ops for C13 (and, re-exported, C12): the label codec `Xrfmv.Codec` evaluated on `Float`.
+
+  qcontract  {Q}                                   -> largest deviations from QᵀQ = I and QQᵀ = I − J/K
+  codes      {Q, prior | counts}                   -> prior, mu, C = Q − mu, A = [Cᵀ;1ᵀ], explicit inverse [Q|prior]
+  invcheck   {Q, prior | counts, invA}             -> largest deviation of A·invA and invA·A from I
+  encode     {mode, K, labels, (Q, prior|counts)}  -> regression targets, one row per label
+  decode     {mode, rows, eps, (invA | Q, prior|counts)}
+                                                   -> raw decoded rows (before clamping), clamped-normalised
+                                                      probabilities, arg-max labels
+Rejected (`bad-op`): K < 2, ragged or wrongly sized matrices, non-finite numbers, labels ≥ K where the
+code raises (one-hot, prevalence), an all-zero count vector, eps outside (0, 1).
+-/
 import Xrfmv.Drv.Common
+import Xrfmv.Model.Codec
+
+open Lean Xrfmv.Drv Xrfmv.Codec
 
 namespace Xrfmv.Drv.C13
 
-def ops : List (String × Handler) := []
+def finiteF (x : Float) : Bool := !x.isNaN && !x.isInf
+
+def toVec (a : Array Float) (n : Nat) : Vec Float n := fun i => a.getD i.val 0.0
+def toMat (a : Array (Array Float)) (m n : Nat) : Mat Float m n := fun i j => (a.getD i.val #[]).getD j.val 0.0
+def ofVec {n : Nat} (v : Vec Float n) : Array Float := Array.ofFn v
+def ofMat {m n : Nat} (M : Mat Float m n) : Array (Array Float) := Array.ofFn fun i => Array.ofFn (M i)
+
+def checkMat (name : String) (a : Array (Array Float)) (m n : Nat) : Except String Unit := do
+  if a.size != m then throw s!"bad-op: {name} has {a.size} rows, expected {m}"
+  if a.any (fun r => r.size != n) then throw s!"bad-op: {name} is not {m}x{n}"
+  if a.any (fun r => r.any (fun x => !finiteF x)) then throw s!"bad-op: non-finite entry in {name}"
+
+def checkVec (name : String) (a : Array Float) (n : Nat) : Except String Unit := do
+  if a.size != n then throw s!"bad-op: {name} has {a.size} entries, expected {n}"
+  if a.any (fun x => !finiteF x) then throw s!"bad-op: non-finite entry in {name}"
+
+def maxAbs (xs : Array Float) : Float := xs.foldl (fun m x => if m < x.abs then x.abs else m) 0.0
+
+/-- `Q` with its class count: `K = n + 1 ≥ 2`, shape `K × n`. -/
+def getQ (j : Json) : Except String ((n : Nat) × Mat Float (n + 1) n) := do
+  let q ← getFss j "Q"
+  if q.size < 2 then throw "bad-op: n_classes < 2"
+  let n := q.size - 1
+  checkMat "Q" q (n + 1) n
+  pure ⟨n, toMat q (n + 1) n⟩
+
+/-- The prior, given directly (`prior`) or as class counts (`counts`, not all zero). -/
+def getPrior (j : Json) (K : Nat) : Except String (Vec Float K) := do
+  match ← optFs j "prior" with
+  | some p =>
+    checkVec "prior" p K
+    pure (toVec p K)
+  | none =>
+    let c ← j.getObjValAs? (Array Nat) "counts"
+    if c.size != K then throw s!"bad-op: counts has {c.size} entries, expected {K}"
+    if c.all (· == 0) then throw "bad-op: labels must contain at least one element"
+    -- materialised once: `priorOf` is a closure that would recompute `float(count)` on every access
+    pure (toVec (ofVec (priorOf (α := Float) (fun (k : Fin K) => c.getD k.val 0))) K)
+
+def getEps (j : Json) : Except String Float := do
+  let e ← getF j "eps"
+  if !(0.0 < e && e < 1.0) then throw "bad-op: eps outside (0,1)"
+  pure e
+
+def opQContract : Handler := fun j => do
+  let ⟨n, Q⟩ ← getQ j
+  let o : Array Float := (ofMat (fun a b => qtqDev Q a b)).flatten
+  let p : Array Float := (ofMat (fun k l => qqtDev Q k l)).flatten
+  let colsum : Array Float := Array.ofFn fun (a : Fin n) => vsum (n + 1) (fun k => Q k a)
+  pure <| Json.mkObj [("K", toJson (n + 1)), ("orthDev", fJson (maxAbs o)), ("projDev", fJson (maxAbs p)),
+    ("colsumDev", fJson (maxAbs colsum))]
+
+def opCodes : Handler := fun j => do
+  let ⟨n, Q⟩ ← getQ j
+  let prior ← getPrior j (n + 1)
+  pure <| Json.mkObj [("prior", fsJson (ofVec prior)), ("mu", fsJson (ofVec (mu prior Q))),
+    ("C", fssJson (ofMat (codes prior Q))), ("A", fssJson (ofMat (augA prior Q))),
+    ("explicitInv", fssJson (ofMat (explicitInv prior Q))),
+    ("priorSum", fJson (vsum (n + 1) prior))]
+
+def opInvCheck : Handler := fun j => do
+  let ⟨n, Q⟩ ← getQ j
+  let prior ← getPrior j (n + 1)
+  let ia ← getFss j "invA"
+  checkMat "invA" ia (n + 1) (n + 1)
+  let invA := toMat ia (n + 1) (n + 1)
+  let A := augA prior Q
+  let r : Array Float := (ofMat (fun a b => matMul A invA a b - delta a b)).flatten
+  let l : Array Float := (ofMat (fun a b => matMul invA A a b - delta a b)).flatten
+  let d : Array Float := (ofMat (fun a b => invA a b - explicitInv prior Q a b)).flatten
+  pure <| Json.mkObj [("rightDev", fJson (maxAbs r)), ("leftDev", fJson (maxAbs l)), ("explicitDev", fJson (maxAbs d))]
+
+def opEncode : Handler := fun j => do
+  let mode ← j.getObjValAs? String "mode"
+  let K ← j.getObjValAs? Nat "K"
+  let labels ← j.getObjValAs? (Array Nat) "labels"
+  if K < 2 then throw "bad-op: n_classes < 2"
+  match mode with
+  | "zero_one" =>
+    if K == 2 then
+      pure <| Json.mkObj [("rows", fssJson (labels.map fun l => ofVec (encodeBinary (α := Float) l)))]
+    else
+      if labels.any (· ≥ K) then throw "bad-op: label out of range"
+      pure <| Json.mkObj [("rows", fssJson (labels.map fun l =>
+        if h : l < K then ofVec (encodeOneHot (α := Float) K ⟨l, h⟩) else #[]))]
+  | "prevalence" =>
+    let ⟨n, Q⟩ ← getQ j
+    if n + 1 != K then throw "bad-op: Q does not have K rows"
+    let prior ← getPrior j (n + 1)
+    if labels.any (· ≥ K) then throw "bad-op: label out of range"
+    -- one evaluation of `encodePrev` per class, then `C[labels]`
+    let table : Array (Array Float) := Array.ofFn fun (l : Fin (n + 1)) => ofVec (encodePrev prior Q l)
+    pure <| Json.mkObj [("rows", fssJson (labels.map fun l => table.getD l #[]))]
+  | _ => throw "bad-op: unknown mode"
+
+/-- Decode one batch. Answer: `raw` (decoded, before clamping), `probs`, `labels`. -/
+def decodeRows (j : Json) (rows : Array (Array Float)) : Except String Json := do
+  let mode ← j.getObjValAs? String "mode"
+  let eps ← getEps j
+  if rows.any (fun r => r.any (fun x => !finiteF x)) then throw "bad-op: non-finite decoder input"
+  match mode with
+  | "zero_one" =>
+    if rows.size == 0 then return Json.mkObj [("raw", fssJson #[]), ("probs", fssJson #[]), ("labels", toJson (#[] : Array Nat))]
+    let w := (rows.getD 0 #[]).size
+    if w == 0 then throw "bad-op: empty decoder rows"
+    if rows.any (fun r => r.size != w) then throw "bad-op: ragged decoder input"
+    if w == 1 then
+      let raw := rows.map fun r => ofVec (expandBinary (toVec r 1))
+      let probs := rows.map fun r => ofVec (probasBinary eps (toVec r 1))
+      let labels := rows.map fun r => (labelBinary eps (toVec r 1)).val
+      pure <| Json.mkObj [("raw", fssJson raw), ("probs", fssJson probs), ("labels", toJson labels)]
+    else
+      let n := w - 1
+      let probs := rows.map fun r => ofVec (probasMulti eps (toVec r (n + 1)))
+      let labels := rows.map fun r => (labelMulti eps (toVec r (n + 1))).val
+      pure <| Json.mkObj [("raw", fssJson rows), ("probs", fssJson probs), ("labels", toJson labels)]
+  | "prevalence" =>
+    match ← optFss j "invA" with
+    | some ia =>
+      if ia.size < 2 then throw "bad-op: n_classes < 2"
+      let n := ia.size - 1
+      checkMat "invA" ia (n + 1) (n + 1)
+      if rows.any (fun r => r.size != n) then throw "bad-op: decoder input width is not K-1"
+      let invA := toMat ia (n + 1) (n + 1)
+      let raw := rows.map fun r => ofVec (decodeInv invA (toVec r n))
+      let probs := rows.map fun r => ofVec (probasPrevInv eps invA (toVec r n))
+      let labels := rows.map fun r => (labelPrevInv eps invA (toVec r n)).val
+      pure <| Json.mkObj [("raw", fssJson raw), ("probs", fssJson probs), ("labels", toJson labels)]
+    | none =>
+      let ⟨n, Q⟩ ← getQ j
+      let prior ← getPrior j (n + 1)
+      if rows.any (fun r => r.size != n) then throw "bad-op: decoder input width is not K-1"
+      let raw := rows.map fun r => ofVec (decodeExplicit prior Q (toVec r n))
+      let probs := rows.map fun r => ofVec (probasPrev eps prior Q (toVec r n))
+      let labels := rows.map fun r => (labelPrev eps prior Q (toVec r n)).val
+      pure <| Json.mkObj [("raw", fssJson raw), ("probs", fssJson probs), ("labels", toJson labels)]
+  | _ => throw "bad-op: unknown mode"
+
+def opDecode : Handler := fun j => do
+  let rows ← getFss j "rows"
+  decodeRows j rows
+
+def ops : List (String × Handler) :=
+  [("qcontract", opQContract), ("codes", opCodes), ("invcheck", opInvCheck), ("encode", opEncode),
+   ("decode", opDecode)]
 
 end Xrfmv.Drv.C13
